@@ -166,6 +166,9 @@ func corpus(thorough bool) [][]bqlm.Clause {
 			if len(named[0].Bindings()) >= 2 {
 				named[0].Tag = "agg"
 				out = append(out, named)
+				o := append([]bqlm.Clause{}, named...)
+				o[0].Tag = "aggO"
+				out = append(out, o)
 			}
 		}
 	}
@@ -214,7 +217,9 @@ func graphs() [][]*triple.Triple {
 		{T(a, p, model.ON(b)), T(b, p, model.ON(c)), T(c, p, model.ON(a)), T(a, p1, model.ON(b)), T(a, p2, model.OL(bqlm.LInt)), T(b, bqlm.PT1Z, model.ON(c))}, // the last one: the instant of p1 written in another zone
 		{T(a, p, model.OL(bqlm.LInt)), T(a, p, model.ON(b)), T(a, p, model.OP(p1)), T(b, p1, model.OP(p2)), T(a, p1, model.OP(p1))},
 		{T(a, p, model.ON(a)), T(a, p1, model.ON(a)), T(c, p2, model.OP(p2)), T(a, bqlm.QT2, model.ON(b))},
-		{T(a, p, model.ON(b))},
+		// one object column alternating between kinds, values repeated across subjects: b, "x", a, "x", b (a grouping
+		// column whose groups are not contiguous after a kind-blind sort)
+		{T(model.N("/u", "s1"), p, model.ON(b)), T(model.N("/u", "s2"), p, model.OL(bqlm.LText)), T(model.N("/u", "s3"), p, model.ON(a)), T(model.N("/u", "s4"), p, model.OL(bqlm.LText)), T(model.N("/u", "s5"), p, model.ON(b))},
 		bqlm.BoundAliasGraphs()[0]["?g"],
 	}
 }
@@ -247,11 +252,15 @@ func run(st storage.Store, q *bqlm.Query, chanSize int) outcome {
 	return outcome{rows: res.Sorted(), seq: res.Rows}
 }
 
-func isAgg(cs []bqlm.Clause) bool { return len(cs) > 0 && cs[0].Tag == "agg" }
+func isAgg(cs []bqlm.Clause) bool { return len(cs) > 0 && (cs[0].Tag == "agg" || cs[0].Tag == "aggO") }
 
 func query(cs []bqlm.Clause, from []string) *bqlm.Query {
 	if isAgg(cs) {
 		bs := bqlm.AllBindings(cs) // order of first appearance: stable under renaming
+		if cs[0].Tag == "aggO" && len(bs) >= 2 {
+			// group by the LAST binding (usually an object column, which mixes kinds), count the first
+			bs = []string{bs[len(bs)-1], bs[0]}
+		}
 		return &bqlm.Query{From: from, Where: cs, GroupBy: []string{bs[0]}, Proj: []bqlm.Proj{{Binding: bs[0]},
 			{Binding: bs[1], Op: "count", Alias: "?cnt"}, {Binding: bs[1], Op: "count", Distinct: true, Alias: "?dst"}}}
 	}
